@@ -472,8 +472,10 @@ def run(ctx):
                    "translator", ref and sorted(ref) == sorted(table["canon"]), "differs in: " + json.dumps(diff)[:1500])
         ctx.extra["pushPairArena_variant_matched"] = variant
         ctx.oblige("pushPairArena tests the pointer it allocated (never_use_failed_alloc_pushPair_after_fix applies; with the "
-                   "as-is variant pushPair_asIs_null_deref applies instead)", "theorem-applicability", variant == "fixed",
-                   "source guard: " + "; ".join(x for x in table["canon"] if x.startswith("pushPairArena|")))
+                   "as-is variant pushPair_asIs_null_deref applies instead)", "theorem-applicability",
+                   variant == "fixed" or (variant == "asis" and KEY_PUSHPAIR in {k["key"] for k in ctx.known()}),
+                   "source guard: " + "; ".join(x for x in table["canon"] if x.startswith("pushPairArena|")) +
+                   " (an as-is guard is accepted only when %s is a recorded known finding)" % KEY_PUSHPAIR)
     variant = variant or "asis"
 
     # ---- implementation side
@@ -486,7 +488,7 @@ def run(ctx):
 
     models = [("spheres14", spheres_model(14)), ("limits-pgs-sparse", limits_model(12, "mjSOL_PGS", "mjJAC_SPARSE")),
               ("limits-pgs-dense", limits_model(9, "mjSOL_PGS", "mjJAC_DENSE"))]
-    nclu, ngen = (6, 6) if thorough else (1, 1)
+    nclu, ngen = (5, 5) if thorough else (1, 1)
     forced = [("mjSOL_PGS", "mjJAC_SPARSE"), ("mjSOL_PGS", "mjJAC_DENSE"), ("mjSOL_CG", "mjJAC_SPARSE")]
     for i in range(nclu):
         so, ja = forced[i] if i < len(forced) else (None, None)   # the dual (mj_makeY / mj_makeAR) paths are always covered
@@ -503,7 +505,7 @@ def run(ctx):
         mfile = os.path.join(cdir, "m_%s.txt" % hashlib.md5("\n".join(lines).encode()).hexdigest()[:12])
         with open(mfile, "w") as f:
             f.write("\n".join(lines) + "\nend\n")
-        ops = unit_lines(ctx, impl, mfile, rng, variant, 2400 if thorough else 500)
+        ops = unit_lines(ctx, impl, mfile, rng, variant, 1200 if thorough else 500)
         nunit += len(ops)
         rc, outs, err = ctx.run_lines([impl, "--model", mfile], ops)
         # the harness output is computed once; the correspondence compares exactly these lines with the model's
@@ -544,7 +546,7 @@ def run(ctx):
         if asan:
             sa = Sweeper(ctx, asan, {"C20_NOFENCE": "1", "ASAN_OPTIONS": "detect_leaks=0:abort_on_error=0:allocator_may_return_null=1:detect_odr_violation=0",
                                      "UBSAN_OPTIONS": "print_stacktrace=0"}, 8)
-            for name, lines in models[:5]:
+            for name, lines in models[:4]:
                 nsizes[name + "[asan]"] = sweep_model(ctx, sa, name + "[asan]", lines, 2, False, rng, fails, traces, hist, max_rounds=12)
             sw.nruns += sa.nruns
     tm["sweeps"] = round(time.time() - t0, 1)
